@@ -18,6 +18,7 @@ package consensus
 
 import (
 	"errors"
+	"math"
 
 	"github.com/bbva/qed/metrics"
 	"github.com/bbva/qed/rocksdb"
@@ -321,7 +322,17 @@ func (s *raftLog) StoreLogs(logs []*raft.Log) error {
 
 // DeleteRange deletes logs within a given range inclusively.
 func (s *raftLog) DeleteRange(min, max uint64) error {
+	if min > max {
+		return nil // empty range: an inverted range written to RocksDB fails and leaves the DB refusing every later write
+	}
 	batch := rocksdb.NewWriteBatch()
+	defer batch.Destroy()
+	if max == math.MaxUint64 {
+		// max+1 would wrap around to 0: delete [min, max) and the last possible index on its own
+		batch.DeleteRangeCF(s.cfHandles[logTable], util.Uint64AsBytes(min), util.Uint64AsBytes(max))
+		batch.DeleteCF(s.cfHandles[logTable], util.Uint64AsBytes(max))
+		return s.db.Write(s.wo, batch)
+	}
 	batch.DeleteRangeCF(s.cfHandles[logTable], util.Uint64AsBytes(min), util.Uint64AsBytes(max+1))
 	return s.db.Write(s.wo, batch)
 }
